@@ -79,9 +79,13 @@ impl ElixirRange {
         if self.is_empty() {
             return 0;
         }
-        let diff = (self.last - self.first).abs();
-        let step = self.step.abs();
-        ((diff / step) + 1) as usize
+        // 128-bit arithmetic: `last - first` and `abs` overflow i64 for extreme bounds
+        let diff = (self.last as i128 - self.first as i128).unsigned_abs();
+        let step = (self.step as i128).unsigned_abs();
+        if step == 0 {
+            return 0;
+        }
+        usize::try_from(diff / step + 1).unwrap_or(usize::MAX)
     }
 
     /// Returns true if the range contains the given value.
@@ -91,9 +95,15 @@ impl ElixirRange {
             return false;
         }
         if self.step > 0 {
-            value >= self.first && value <= self.last && (value - self.first) % self.step == 0
+            value >= self.first
+                && value <= self.last
+                && (value as i128 - self.first as i128) % (self.step as i128) == 0
+        } else if self.step < 0 {
+            value <= self.first
+                && value >= self.last
+                && (self.first as i128 - value as i128) % (-(self.step as i128)) == 0
         } else {
-            value <= self.first && value >= self.last && (self.first - value) % (-self.step) == 0
+            false
         }
     }
 
@@ -203,12 +213,15 @@ impl Iterator for RangeIterator {
             if self.current > self.range.last {
                 0
             } else {
-                (((self.range.last - self.current) / self.range.step) + 1) as usize
+                let span = (self.range.last as i128 - self.current as i128) as u128;
+                usize::try_from(span / (self.range.step as u128) + 1).unwrap_or(usize::MAX)
             }
-        } else if self.current < self.range.last {
+        } else if self.range.step == 0 || self.current < self.range.last {
             0
         } else {
-            (((self.current - self.range.last) / (-self.range.step)) + 1) as usize
+            let span = (self.current as i128 - self.range.last as i128) as u128;
+            let step = (self.range.step as i128).unsigned_abs();
+            usize::try_from(span / step + 1).unwrap_or(usize::MAX)
         };
         (remaining, Some(remaining))
     }
